@@ -9,8 +9,7 @@ RULE = ("TLC enumerates 48 integer DeepONet configurations (output dim 1-2, 1-3 
 
 def run(ctx):
     if ctx.replay:
-        scen = [json.load(open(ctx.replay))["trace"]["scenario"]]
-        scen[0].pop("tid", None)
+        scen = ctx.replay_scenarios()
     else:
         scen = ctx.gen("Gen_C09", "Gen_C09")
         if not ctx.quick:
